@@ -323,7 +323,7 @@ func checkC10(c *Ctx) {
 			if e.Key == "cb:ErrorHandler" {
 				if call, isCall := e.Node.(*ast.CallExpr); isCall {
 					for x := p.Parent(call); x != nil && x != ast.Node(g.Lit); x = p.Parent(x) {
-						if ifs, isIf := x.(*ast.IfStmt); isIf && strings.Contains(normGuard(exprStr(ifs.Cond)), "err!=nil") {
+						if ifs, isIf := x.(*ast.IfStmt); isIf && errNilCmp(g.Info(), ifs.Cond, token.NEQ) {
 							guarded = true
 						}
 					}
